@@ -67,9 +67,9 @@ CLAIMS = {
   text='Proof: tools/extract lists every assignment through a *Config parameter/receiver or to defaultConfig outside the option constructors; GoSnaps.Props.C12 requires that list to be empty (decide) and proves that no step of the model changes the Config store. All ordered pairs and triples of the five entry points x 4 option sets (plus random sequences) are executed through one shared Config and through a fresh Config per call and compared (events, written paths, final directory); the concurrent stress runs under the race detector.',
   note='The extractor is syntactic (go/ast): a write through an alias of the pointer would escape it; the behavioural comparison covers that case.'),
  'C14': dict(
-  technique='Lean 4 proof of the go-snaps glue relative to an explicit pretty-printer contract + differential correspondence + metamorphic search over presentations',
+  technique='Lean 4 proof of the go-snaps glue relative to an explicit pretty-printer contract, and of that contract for an executable Lean model of gjson.Valid / tidwall/pretty tied to the libraries by differential correspondence + metamorphic search over presentations',
   text='Proof (of the glue): GoSnaps.Props.C14 proves, relative to an explicit PrettySpec contract of tidwall/pretty (whitespace invariance, member-order invariance when sorting, losslessness), that the three input forms, whitespace variants and (default options, read from the source) member-order variants store identical text, that MatchStandaloneJSON stores the same text, and that invalid input writes nothing. On the implementation: documents from a random AST x presentations (whitespace incl. \\r, member order) x forms x options; stored bytes identical within a class, stored text parses to the input value, malformed stream gives one failure and an unchanged directory; the whole pipeline result is compared with the model.',
-  note='Partial: the pretty printer and gjson validation are parameters (contract assumed, exercised); string-escape presentation (\\u00e9 vs the character) is not whitespace and is out of scope.'),
+  note='The pretty printer and gjson validation are no longer bare parameters: they are modelled in Lean (Json.lean) and the model is compared with the real libraries on generated and malformed documents; what remains assumed is that correspondence (sampling) and json.Marshal for Go values. Member-order invariance needs pairwise different keys after unescaping (false of the library otherwise: checked witness). String-escape presentation (\\u00e9 vs the character) is not whitespace and is out of scope.'),
  'C15': dict(
   technique='Lean 4 proof of the matcher fold (left to right, failing matcher skipped, errors aggregated) + aliasing facts from the source + ordered structural search on the real matchers',
   text='Proof (of the glue): GoSnaps.Props.C15 models applyJSONMatchers/applyYAMLMatchers as a fold and proves left-to-right composition, that a failing matcher\'s output never becomes the document and that errors are aggregated; whether the caller\'s bytes can be written is decided from facts read from the source (validateJSON aliases its []byte argument; sjson ReplaceInPlace). The real match.Any/Type/Custom are applied to generated documents (keys needing escapes, array elements, nested; placeholders shorter, longer, needing escapes, non-string) and an ordered flattening of input and output is compared: everything outside the target identical in value and position, the target equal to the placeholder, caller\'s bytes untouched; JSON and YAML.',
@@ -88,6 +88,30 @@ CLAIMS = {
   note='Partial: go-yaml (validity, marshalling determinism, AST printing) is a parameter, exercised not proved. A flow sequence equal to a live header at column 0 is finding D9.'),
 }
 
+# what the translator ties by proof, per property (appended to the level text; DESIGN.md §0.6)
+TIES = {
+ 'C01': 'getPrevSnapshot, addNewSnapshot, the registries, the five Match* flows and the test cleanups are TRANSLITERATED from the Go source on every run and proved equal to / a simulation of the model (Tie/Snapshot, SnapshotIO, Registry, Flows); Tie/EndToEnd restates the record/replay history theorem about goRun, the fold of the transliterated flows.',
+ 'C02': 'prettyDiff, buildDiffReport, getUnifiedDiff and the colour helpers are transliterated and proved equal to the model\'s report (Tie/DiffIO: NO_COLOR report = model; the colour-mode report of two different texts is never empty, whatever diffmatchpatch answers); the mismatch history theorem is restated about the transliterated flows (Tie/EndToEnd).',
+ 'C03': 'syncRegistry / syncStandaloneRegistry methods are transliterated and proved a simulation of the model\'s flat registries (Tie/Registry: getTestID, reset, isolation, no panic from a reachable state).',
+ 'C04': 'updateSnapshot, removeSnapshot, overwriteFile are transliterated with a failure oracle for every file-system call and proved equal to the model\'s update under IOFail.never, with closed decision trees for every failure (Tie/SnapshotIO); the update history theorem is restated about the transliterated flows (Tie/EndToEnd).',
+ 'C05': 'besides the mode gates, the flows, the file functions and Clean are transliterated: Tie/Flows proves for every failure oracle that a call whose gates are closed leaves St.fs unchanged; Tie/CleanTopIO proves Clean_ci_readonly and Clean_no_update_no_removal on the transliteration.',
+ 'C06': 'the lock kind of every file function is read from the source; the registries\' methods are transliterated (Tie/Registry), events.register / syncSlice.append are tied as source text (prims.json).',
+ 'C07': 'occurrences, examineSnaps, examineFiles, isFileSkipped, Clean are transliterated and proved equal to the model (Tie/CleanIO, Tie/CleanTopIO1-3, CleanTopIO).',
+ 'C08': 'testSkipped, isFileSkipped, trackSkip and the exported Skip/Skipf/SkipNow wrappers are transliterated and tied (Tie/Skip, CleanTopIO1: the test is recorded before testing takes over).',
+ 'C09': 'examineFiles, examineSnaps, Clean are transliterated; Tie/CleanTopIO proves on the transliteration that nothing is removed outside the deleting modes and that only reported paths are removed.',
+ 'C10': 'examineSnaps (scan, rewrite, sort call) and getTestID are transliterated and proved equal to the model\'s exScan / rewrite (Tie/CleanIO, Tie/TestID).',
+ 'C11': 'constructFilename, snapshotPath, baseCaller (the stack walk, for any sufficient fuel) and every option constructor / exported wrapper are transliterated and tied (Tie/Path, Tie/Caller, Tie/Wrappers).',
+ 'C12': 'the option constructors, WithConfig (a fold) and the wrappers are transliterated: Tie/Wrappers proves which Config each entry point uses; getPrettyJSONOptions builds a fresh options value (Tie/Pipeline).',
+ 'C13': 'the report functions of snaps/diff.go and internal/colors are transliterated and tied (Tie/Diff, Tie/DiffIO); internal/difflib itself is a hand-written Lean port with its own proofs and exhaustive correspondence.',
+ 'C14': 'tier B: lean/GoSnaps/Json.lean is an executable MODEL of gjson.Valid and tidwall/pretty (all of Width / Indent / SortKeys) compared byte for byte with the libraries (suite json.model); Props/C14Json proves white-space and member-order invariance, losslessness, idempotence, no terminator line, validator = parser, and model_prettySpec (the PrettySpec contract holds of the model); validateJSON (the type switch on the dynamic type), getPrettyJSONOptions and takeJSONSnapshot are transliterated and tied (Tie/Pipeline: = C14.validateJSON, = trimNL . pretty).',
+ 'C15': 'applyJSONMatchers / applyYAMLMatchers and the thirteen methods of package match are transliterated relative to gjson/sjson/go-yaml as parameters and proved to be the model\'s folds (Tie/Matchers).',
+ 'C16': 'the matcher methods are transliterated and tied to C16.mask / maskWith under the lens hypotheses (Tie/Matchers: pipeline_masks).',
+ 'C17': 'the flows up to handleError, the error-message loop and the registry bump are transliterated: Tie/Flows proves matcher_error one failure / no write / ordinal consumed on the transliteration for every failure oracle.',
+ 'C18': 'matchYAML, takeYAMLSnapshot, escape and validateYAML are transliterated: Tie/Pipeline proves a string / []byte document that decodes is handed on byte for byte; Tie/Flows the stored body.',
+ 'C19': 'matchStandaloneSnapshot / matchStandaloneJSON, upsertStandaloneSnapshot, getPrevStandaloneSnapshot and the standalone registry are transliterated and tied (Tie/SnapshotIO, Tie/Registry, Tie/Flows, Tie/Wrappers).',
+ 'C20': 'all five flows and handleError are transliterated: Tie/Flows proves exactly one outcome and one counter per call for every failure oracle; summary, printEvent and Clean are transliterated and tied (Tie/CleanTopIO: summary_tied, Clean_prints_once).',
+}
+
 def main():
     checks, na = [], []
     for p in props:
@@ -103,9 +127,9 @@ def main():
             evidence_file='/verif/evidence/%s.json' % pid,
             replay_cmd_template='./check replay {path}',
             engine='lean-proofs+correspondence',
-            level_claimed=dict(category='proof', text=c['text'], design_ref='DESIGN.md §7 ' + pid),
+            level_claimed=dict(category='proof', text=c['text'] + (' Tie by proof: ' + TIES[pid] if pid in TIES else ''), design_ref='DESIGN.md §0.6, §7 ' + pid),
             level_note=c['note'],
-            technique=c['technique']))
+            technique=c['technique'] + ('; Go functions transliterated on every run and tied to the model by proof' if pid in TIES else '')))
     m = dict(version=1, setup_cmd='cd /verif && ./setup.sh',
              hooks=dict(guard='verif',
                         enable='go test -c -tags verif -overlay <overlay.json generated by vcheck/core.py> ./snaps  (harness files /verif/harness/snaps/*.go are injected at build time as /repo/snaps/zz_verif_*_test.go; nothing is committed to /repo)',
@@ -113,7 +137,7 @@ def main():
                         source_commits=[], add_only=True),
              engines=[
                  dict(name='lean-proofs', path='/verif/lean', serves_properties=[c['property_id'] for c in checks], kind_free_text='Lean 4.33 model + theorems (core only), native model driver gosnaps-model'),
-                 dict(name='extract', path='/verif/tools/extract', serves_properties=[c['property_id'] for c in checks], kind_free_text='go/ast fact extractor and mode-gate translator regenerating lean/GoSnaps/Generated'),
+                 dict(name='extract', path='/verif/tools/extract', serves_properties=[c['property_id'] for c in checks], kind_free_text='go/ast fact extractor and Go-to-Lean translator (90 functions transliterated statement by statement) regenerating lean/GoSnaps/Generated on every run'),
                  dict(name='corr-harness', path='/verif/harness', serves_properties=[c['property_id'] for c in checks], kind_free_text='differential harness injected with go test -overlay, one-op-per-line protocol shared with the Lean driver'),
                  dict(name='orchestrator', path='/verif/vcheck', serves_properties=[c['property_id'] for c in checks], kind_free_text='python3 stdlib: generators, comparison, shrinking, known findings, evidence'),
              ],
